@@ -2,5 +2,6 @@ package main
 
 import (
 	_ "verif/internal/props/c01"
+	_ "verif/internal/props/c16"
 	_ "verif/internal/props/c18"
 )
